@@ -27,7 +27,14 @@ RULE = ('exhaustive over all Pauli strings / bsf vectors / ordered pairs for n<=
         'documented types (str vs one-element list, vector vs 1 x 2n matrix); every real result is rendered '
         'shape-tolerantly (an unexpected shape / type is an outcome that disagrees with the model, not a harness error); '
         'dense accumulator-boundary operators also in compact dtypes (int8 / uint8 / bool) up to n = 2^24+3 in every '
-        'tier; a case is non-trivial '
+        'tier; PACK / UNPACK ACROSS ORDERS OF MAGNITUDE: lengths 2^k-1, 2^k, 2^k+1 (k = 7..20, thorough 22), 10^k-1, '
+        '10^k, 10^k+1 (k = 2..6, thorough 7), 8*10^k + {-8,-1,0,1,7,8,9} (k = 2..5: 100..100000 packed bytes and the '
+        'neighbouring bit / byte boundaries, e.g. 7999, 8000, 8001, 8008) x contents all-zero, all-one, random, a single '
+        'one in the middle (up to 20000 bits also random uint8, alternating, a single one in the last position): pack == '
+        'the documented packing by an independent integer hex oracle, unpack(pack(b)) == b, unpack(documented packing) '
+        '== b, argument unchanged, b with the middle bit flipped packs differently; every array up to 20000 bits and '
+        'random arrays of 65537, 80001, 10^5, 2^17+1, 800008, 10^6, 2^20+1 bits also through the Lean model (driver ops '
+        'pack / unpack); a case is non-trivial '
         'when its operand is not all-identity/all-zero; distinct = distinct protocol lines')
 
 ANTI = {(a, b): (a != 'I' and b != 'I' and a != b) for a in 'IXYZ' for b in 'IXYZ'}
@@ -245,6 +252,7 @@ def run(ctx):
                 ctx.monitor_fail('bsf_wt of X^n is not n', {'n': n, 'dtype': np.dtype(dt).name,
                                                             'got': r_int(pt.bsf_wt(a))})
             del a, b
+    part_longpack(ctx, pt)
     part_stackings(ctx, pt)
     part_purity(ctx, pt)
     part_generators(ctx, pt)
@@ -252,6 +260,171 @@ def run(ctx):
     part_dtypes(ctx, pt)
     part_highweight(ctx, pt)
     return ctx.finish(RULE, search=search)
+
+
+# ------------------------------------------------------------------------------------------ pack / unpack at every scale
+# "pack/unpack round-trips every binary array of every length": the exhaustive loop above stops at a few hundred bits,
+# the arrays qecsim packs in earnest (bsf of a large lattice, its syndrome, logged errors) have 10^4..10^6 entries.
+# Lengths are taken across orders of magnitude at every kind of boundary a rendering / buffering / chunking step could
+# have: 2^k and 10^k bits (k up to 20 / 6), 8*10^k bits = 10^k packed bytes (array-printing thresholds, line widths),
+# each with its neighbours and the neighbouring byte boundaries; contents: all-zero, all-one, random (two), alternating,
+# a single one in the middle, a single one in the last position (inside the zero padding of the last byte).
+# Every real result is judged twice: by the property's own monitors against an INDEPENDENT hex oracle (integer
+# arithmetic only: the padded bit string read as one big-endian integer, two hex digits per byte - no packbits, no
+# bytearray) and, for every length up to 20000 and a ladder of long lengths, by the Lean model (driver ops pack /
+# unpack, the functions theorems unpack_pack / pack_length are about).  The part draws from its own numpy generator
+# (seeded by the run seed), not from ctx.rng.
+
+def fast_bits(b):
+    b = np.asarray(b)
+    return (b.astype(np.uint8) + 48).tobytes().decode('ascii') if b.size else '_'
+
+
+def hex_oracle(b):
+    """documented packing of a binary vector, by integer arithmetic only"""
+    nb = (len(b) + 7) // 8
+    if nb == 0:
+        return ''
+    return '{:0{}x}'.format(int(fast_bits(b) + '0' * (8 * nb - len(b)), 2), 2 * nb)
+
+
+def unhex_oracle(hx, length):
+    """documented unpacking: the first `length` bits of the bytes written in hex (as a 0/1 string)"""
+    return ('{:0{}b}'.format(int(hx, 16), 4 * len(hx)) if hx else '')[:length]
+
+
+LONG_LEAN_ALL = 20000      # every content goes through the Lean model up to this length
+
+
+def longpack_lengths(quick):
+    ls = set()
+    for k in range(7, 21 if quick else 23):
+        ls |= {2 ** k - 1, 2 ** k, 2 ** k + 1}
+    for k in range(2, 7):
+        ls |= {10 ** k - 1, 10 ** k, 10 ** k + 1}
+    for k in range(2, 6):
+        ls |= {8 * 10 ** k + d for d in (-8, -1, 0, 1, 7, 8, 9)}
+    if not quick:
+        ls |= {10 ** 7 - 1, 10 ** 7, 10 ** 7 + 1}
+    return sorted(ls)
+
+
+def longpack_lean_ladder(quick):
+    """long lengths that also go through the Lean model (random content)"""
+    return {2 ** 16 + 1, 80001, 10 ** 5, 2 ** 17 + 1, 800008, 10 ** 6, 2 ** 20 + 1} | (set() if quick else {2 ** 21 + 1})
+
+
+def longpack_content(kind, length, seed):
+    if kind == 'zeros':
+        return np.zeros(length, dtype=int)
+    if kind == 'ones':
+        return np.ones(length, dtype=int)
+    if kind == 'alternating':
+        return (np.arange(length) % 2).astype(int)
+    if kind in ('one-in-the-middle', 'one-at-the-end'):
+        b = np.zeros(length, dtype=int)
+        if length:
+            b[length // 2 if kind == 'one-in-the-middle' else length - 1] = 1
+        return b
+    g = np.random.default_rng([seed, length, 0xC09])
+    if kind == 'random-uint8':
+        return g.integers(0, 2, length, dtype=np.uint8)
+    return g.integers(0, 2, length).astype(int)       # 'random'
+
+
+def summarise(h):
+    return h if not isinstance(h, str) or len(h) <= 64 else '{}<{} characters>{}'.format(h[:24], len(h) - 48, h[-24:])
+
+
+def longpack_failure(pt, length, kind, seed):
+    """the PROPERTY on the real code for one array (described by length / content kind / seed): pack gives the
+    documented packing, unpack inverts it (both of pack's own output and of the documented packing), distinct arrays
+    pack differently.  returns (failure dict or None, pack's result, the array)"""
+    b = longpack_content(kind, length, seed)
+    inp = {'part': 'longpack', 'length': length, 'content': kind, 'numpy_seed': seed,
+           'ones_at_first_10': np.flatnonzero(b)[:10].tolist(), 'n_ones': int(b.sum())}
+    keep = b.copy()
+    want = hex_oracle(b)
+    try:
+        pk = pt.pack(b)
+    except Exception as ex:
+        return dict(inp, what='pack raises {!r} on a binary array of length {}'.format(ex, length)[:300]), None, b
+    if not (isinstance(pk, tuple) and len(pk) == 2 and isinstance(pk[0], str) and is_int0(pk[1])):
+        return dict(inp, what='pack does not return (hex string, length): {}'.format(describe(pk))), None, b
+    if (pk[0], int(pk[1])) != (want, length):
+        return dict(inp, what='pack(b) is not the big-endian bit packing of b for a binary array of length {} ({}): '
+                              'got ({!r}, {}), documented ({!r}, {})'.format(length, kind, summarise(pk[0]), int(pk[1]),
+                                                                            summarise(want), length),
+                    got_hex_length=len(pk[0]), expected_hex_length=len(want)), pk, b
+    for what, arg in (('unpack(pack(b))', pk), ('unpack of the documented packing of b', (want, length))):
+        try:
+            u = pt.unpack(arg)
+        except Exception as ex:
+            return dict(inp, what='{} raises {!r} (length {}, {})'.format(what, ex, length, kind)[:300]), pk, b
+        if not (isinstance(u, np.ndarray) and u.shape == (length,) and u.dtype.kind in 'biu' and np.array_equal(u, keep)):
+            first = (int(np.flatnonzero(np.asarray(u) != keep)[0]) if isinstance(u, np.ndarray) and u.shape == (length,)
+                     else None)
+            return dict(inp, what='{} != b (length {}, {}): result {}, first differing position {}'.format(
+                what, length, kind, describe(u), first)), pk, b
+    if not np.array_equal(b, keep):
+        return dict(inp, what='pack / unpack changed the array they were given'), pk, b
+    if length:
+        b2 = b.copy(); b2[length // 2] ^= 1
+        try:
+            pk2 = pt.pack(b2)
+        except Exception as ex:
+            return dict(inp, what='pack raises {!r} after flipping bit {}'.format(ex, length // 2)[:300]), pk, b
+        if pk2 == pk:
+            return dict(inp, what='b and b with bit {} flipped pack to the same value (length {}, {}): pack is not '
+                                  'injective, so unpack cannot invert it'.format(length // 2, length, kind)), pk, b
+    return None, pk, b
+
+
+def part_longpack(ctx, pt):
+    quick = ctx.quick()
+    seed = int(ctx.seed)
+    ladder = longpack_lean_ladder(quick)
+    # the oracle itself against the bit-by-bit definition (py_pack) on short arrays
+    g = np.random.default_rng([seed, 0xC09])
+    for length in list(range(0, 41)) + [63, 64, 65, 255, 1001]:
+        b = g.integers(0, 2, length)
+        if hex_oracle(b) != py_pack(b) or unhex_oracle(py_pack(b), length) != ''.join(map(str, b.tolist())):
+            raise core.Infra('c09: the integer hex oracle disagrees with the bit-by-bit packing at length {}'.format(length))
+    n_fail = 0; n_bits = 0; n_arrays = 0
+    for length in longpack_lengths(quick):
+        kinds = ['zeros', 'ones', 'random', 'one-in-the-middle']
+        if length <= LONG_LEAN_ALL:
+            kinds += ['random-uint8', 'alternating', 'one-at-the-end']
+        for kind in kinds:
+            fail, pk, b = longpack_failure(pt, length, kind, seed)
+            ctx.evaluations += 1; n_arrays += 1; n_bits += length
+            ctx.count('longpack_len_magnitude', '1e{}'.format(len(str(length)) - 1))
+            ctx.count('longpack_content', kind)
+            if fail:
+                n_fail += 1
+                ctx.monitor_fail(fail.pop('what'), fail, key=None)
+                if n_fail >= 3:
+                    return
+            # the Lean model on the same array
+            if length <= LONG_LEAN_ALL or (length in ladder and kind == 'random'):
+                wire = fast_bits(b)
+                nt = bool(b.any())
+                ctx.case('c09 pack ' + wire, '{} {}'.format(pk[0], int(pk[1])) if pk else 'no-result', nontrivial=nt,
+                         meta={'part': 'longpack', 'length': length, 'content': kind, 'numpy_seed': seed})
+                hx = hex_oracle(b)
+                try:
+                    u = pt.unpack((hx, length))
+                    got = (fast_bits(u) if isinstance(u, np.ndarray) and u.shape == (length,) and u.dtype.kind in 'biu'
+                           else describe(u))
+                except Exception as ex:
+                    got = type(ex).__name__
+                ctx.case('c09 unpack {} {}'.format(hx if hx else '_', length), got, nontrivial=nt,
+                         meta={'part': 'longpack', 'length': length, 'content': kind, 'numpy_seed': seed})
+                ctx.count('longpack_lean', 'ladder' if length > LONG_LEAN_ALL else 'all-contents')
+        if len(ctx.queue) and sum(len(c[0]) for c in ctx.queue[-8:]) > 4000000:
+            ctx.flush()          # keep the queue of very long lines small
+    ctx.extra['longpack'] = {'arrays': n_arrays, 'bits': n_bits, 'max_length': longpack_lengths(quick)[-1],
+                             'lean_ladder': sorted(ladder)}
 
 
 # ------------------------------------------------------------------------------------------ purity / freshness
@@ -1272,6 +1445,36 @@ def search(m):
                                 'non-decreasing weight', 'n': n, 'lo': lo, 'hi': hi, 'n_items': len(gotb),
                         'n_distinct': len(set(gotb)), 'n_expected': len(want), 'first_items': gotb[:8]}
     if op in ('pack', 'unpack'):
+        # the mismatching array itself: round trip and documented packing, on the real code only
+        try:
+            if op == 'pack':
+                b = np.array([int(c) for c in toks[2]] if toks[2] != '_' else [], dtype=int)
+            else:
+                hx0 = '' if toks[2] == '_' else toks[2]
+                b = np.array([int(c) for c in unhex_oracle(hx0, int(toks[3]))], dtype=int)
+        except Exception:
+            b = None
+        if b is not None and (op == 'pack' or len(b) == int(toks[3])):
+            desc = {'length': len(b), 'ones_at_first_10': np.flatnonzero(b)[:10].tolist(), 'n_ones': int(b.sum())}
+            if len(b) <= 400:
+                desc['bits'] = bits(b)
+            try:
+                pk = pt.pack(b); r = pt.unpack(pk); r2 = pt.unpack((hex_oracle(b), len(b)))
+            except Exception as ex:
+                return dict(desc, what='pack/unpack raises on a binary array of length {}'.format(len(b)),
+                            exception=repr(ex)[:200])
+            if not (np.array_equal(r, b) and np.array_equal(r2, b)):
+                return dict(desc, what='unpack(pack(b)) != b for a binary array of length {}'.format(len(b)),
+                            pack=summarise(pk[0]))
+            if tuple(pk) != (hex_oracle(b), len(b)):
+                return dict(desc, what='pack(b) is not the big-endian bit packing of b (length {})'.format(len(b)),
+                            got=summarise(pk[0]), documented=summarise(hex_oracle(b)))
+        # a ladder of lengths across orders of magnitude
+        for length in longpack_lengths(True):
+            for kind in ('random', 'ones', 'one-in-the-middle'):
+                fail, _, _ = longpack_failure(pt, length, kind, 0)
+                if fail:
+                    return fail
         for length in range(0, 70):
             for b in (np.ones(length, dtype=int), np.arange(length) % 2, (np.arange(length) % 3 == 0).astype(int)):
                 try:
@@ -1291,5 +1494,12 @@ def replay(ctx, path):
         if m:
             r = search(m)
             print('replay search on', m['op'][:100], '->', r)
+            bad += bool(r)
+        inp = (v.get('counterexample') or {}).get('input')
+        if isinstance(inp, dict) and inp.get('part') == 'longpack':
+            from qecsim import paulitools as pt
+            r, _, _ = longpack_failure(pt, int(inp['length']), inp['content'], int(inp['numpy_seed']))
+            print('replay pack/unpack of length {} ({}, numpy seed {}) ->'.format(
+                inp['length'], inp['content'], inp['numpy_seed']), r)
             bad += bool(r)
     return 1 if bad else 0
